@@ -1,63 +1,80 @@
 (* C09 — the front end is total: pinned theorems about the tokenizer model Front/Lexer.v
-   (byte-level port of parser/src/token.rs + str_suffix.rs; [fx = false] is the tree as found,
-   [fx = true] the tree after fixes/C09-lexer-non-ascii.patch and C09-unescape-invalid-escape.patch).
+   (byte-level port of parser/src/token.rs + str_suffix.rs).  The booleans [fx], [sp] and the first
+   argument of [unescape] select the tree: [false] = as found, [true] = after
+   fixes/C09-lexer-non-ascii.patch, C09-int-literal-span.patch, C08-builtin-operator-span.patch ([ob]),
+   C09-unescape-invalid-escape.patch.
    This file contains statements, `exact`, and Print Assumptions only. *)
 From Coq Require Import List NArith ZArith.
-From GV Require Import Base.Utf8N Front.Lexer Front.LexerProofs.
+From GV Require Import Base.Utf8N Front.Lexer Front.LexerProofs Front.LexerUtf8Proofs.
 Import ListNotations.
 
 (* No loop of the tokenizer runs out of fuel: |input|+1 iterations of Tokenizer::next and
    |remaining|+1 iterations of the string / block-comment loops suffice (each consumes >= 1 byte). *)
-Theorem C09_lex_terminates : forall (fx : bool) (input : list byte), lex fx input <> Fuel.
+Theorem C09_lex_terminates : forall (fx sp ob : bool) (input : list byte), lex fx sp ob input <> Fuel.
 Proof. exact lex_terminates. Qed.
 Print Assumptions C09_lex_terminates.
 
 (* 0 <= a1 <= b1 <= a2 <= b2 <= ... <= |input| for the spans of the results of Tokenizer::next in
    order (in bounds, ordered, non-overlapping); every side error has start <= end <= |input|. *)
-Theorem C09_lex_spans_in_bounds : forall (fx : bool) (input : list byte) items errs,
-  lex fx input = Ok (items, errs) ->
+Theorem C09_lex_spans_in_bounds : forall (fx sp ob : bool) (input : list byte) items errs,
+  lex fx sp ob input = Ok (items, errs) ->
   fwd_ok 0 items (length input) /\
   Forall (fun e => e_start e <= e_end e /\ e_end e <= length input) errs.
 Proof. exact lex_spans_in_bounds. Qed.
 Print Assumptions C09_lex_spans_in_bounds.
 
 (* On pure ASCII input the tokenizer neither panics nor diverges. *)
-Theorem C09_lex_no_panic_ascii : forall (fx : bool) (input : list byte),
-  all_ascii input = true -> exists r, lex fx input = Ok r.
+Theorem C09_lex_no_panic_ascii : forall (fx sp ob : bool) (input : list byte),
+  all_ascii input = true -> exists r, lex fx sp ob input = Ok r.
 Proof. exact lex_no_panic_ascii. Qed.
 Print Assumptions C09_lex_no_panic_ascii.
 
 (* The full statement (every valid UTF-8 input) is false of the tree as found: 'é' alone panics in
    restore_char (str_suffix.rs:83). *)
 Theorem C09_lex_no_panic_refuted :
-  exists input, utf8_valid input = true /\ lex false input = Panic PRestoreChar.
+  exists input, utf8_valid input = true /\ lex false false false input = Panic PRestoreChar.
 Proof. exact lex_no_panic_refuted. Qed.
 Print Assumptions C09_lex_no_panic_refuted.
 
-Theorem C09_lex_no_panic_false_today : ~ lex_no_panic_full_stmt false.
+Theorem C09_lex_no_panic_false_today : ~ lex_no_panic_full_stmt false false false.
 Proof. exact lex_no_panic_false_today. Qed.
 Print Assumptions C09_lex_no_panic_false_today.
 
 (* "\é" : slicing the input inside a character (token.rs:423) *)
 Theorem C09_lex_no_panic_refuted_string :
-  exists input, utf8_valid input = true /\ lex false input = Panic PSlice.
+  exists input, utf8_valid input = true /\ lex false false false input = Panic PSlice.
 Proof. exact lex_no_panic_refuted_string. Qed.
 Print Assumptions C09_lex_no_panic_refuted_string.
 
 (* U+00A0 + blank: no panic, but the UnexpectedChar error covers the first byte only *)
 Theorem C09_lex_spans_on_boundaries_refuted :
   exists input items errs e,
-    utf8_valid input = true /\ lex false input = Ok (items, errs) /\ In e errs /\
+    utf8_valid input = true /\ lex false false false input = Ok (items, errs) /\ In e errs /\
     is_char_boundary input (e_end e) = false.
 Proof. exact lex_spans_on_boundaries_refuted. Qed.
 Print Assumptions C09_lex_spans_on_boundaries_refuted.
 
-Theorem C09_lex_spans_on_boundaries_ascii : forall (fx : bool) (input : list byte) items errs,
-  all_ascii input = true -> lex fx input = Ok (items, errs) ->
+Theorem C09_lex_spans_on_boundaries_ascii : forall (fx sp ob : bool) (input : list byte) items errs,
+  all_ascii input = true -> lex fx sp ob input = Ok (items, errs) ->
   Forall (fun i => span_on_boundaries input (fst (span i)) (snd (span i))) items /\
   Forall (fun e => span_on_boundaries input (e_start e) (e_end e)) errs.
 Proof. exact lex_spans_on_boundaries_ascii. Qed.
 Print Assumptions C09_lex_spans_on_boundaries_ascii.
+
+(* The positive statements hold of the tree with C09-lexer-non-ascii.patch ([fx = true]): on every
+   valid UTF-8 input no step panics or diverges ... *)
+Theorem C09_lex_no_panic_fixed : forall (sp ob : bool) (input : list byte),
+  utf8_valid input = true -> exists r, lex true sp ob input = Ok r.
+Proof. exact lex_no_panic_fixed. Qed.
+Print Assumptions C09_lex_no_panic_fixed.
+
+(* ... and every reported span (tokens, fatal errors, side errors) lies on character boundaries. *)
+Theorem C09_lex_spans_on_boundaries_fixed : forall (sp ob : bool) (input : list byte) items errs,
+  utf8_valid input = true -> lex true sp ob input = Ok (items, errs) ->
+  Forall (fun i => span_on_boundaries input (fst (span i)) (snd (span i))) items /\
+  Forall (fun e => span_on_boundaries input (e_start e) (e_end e)) errs.
+Proof. exact lex_spans_on_boundaries_fixed. Qed.
+Print Assumptions C09_lex_spans_on_boundaries_fixed.
 
 (* StringLiteral::unescape (applied by the grammar to every escaped string token) *)
 Theorem C09_unescape_total_partial : forall (fx : bool) (s : list byte),
@@ -72,7 +89,7 @@ Print Assumptions C09_unescape_total_fixed.
 (* "\q" : the tokenizer recovers (UnexpectedEscapeCode), the grammar's unescape panics *)
 Theorem C09_unescape_total_refuted :
   exists input items errs a b t,
-    all_ascii input = true /\ lex false input = Ok (items, errs) /\
+    all_ascii input = true /\ lex false false false input = Ok (items, errs) /\
     In (ITok (TStr false t) a b) items /\ unescape false t = Panic PInvalidEscape.
 Proof. exact unescape_total_refuted. Qed.
 Print Assumptions C09_unescape_total_refuted.
@@ -80,7 +97,7 @@ Print Assumptions C09_unescape_total_refuted.
 (* a string ending in a backslash: index out of bounds (token.rs:215) *)
 Theorem C09_unescape_total_refuted_eof :
   exists input items errs a b t,
-    all_ascii input = true /\ lex false input = Ok (items, errs) /\
+    all_ascii input = true /\ lex false false false input = Ok (items, errs) /\
     In (ITok (TStr false t) a b) items /\ unescape false t = Panic PIndex.
 Proof. exact unescape_total_refuted_eof. Qed.
 Print Assumptions C09_unescape_total_refuted_eof.
